@@ -3,28 +3,30 @@
 //! module: vk_c15_ftrl
 // @include common/prelude.rs
 // @include common/ghost_f32.rs
+// @include C15/ghost_cache.rs
 use super::*;
 
 // Premise of the property ("all hyperparameters" = the documented ranges of FtrlParams:
 // alpha, beta "positive and finite", l1_ratio/l2_ratio "between 0.0 and 1.0") and of the
-// state (z finite; n is a sum of squares, hence >= 0; +inf allowed for n).
+// state (z finite; n is a sum of squares starting from +0, hence >= +0; +inf allowed for n).
+// `FtrlParams::check_ref` rejects beta = -0.0 (`is_negative`), so beta is +0 or positive.
 fn hyper_ok(alpha: f32, beta: f32, l1: f32, l2: f32) -> bool {
-    alpha.is_finite() && alpha > 0.0 && beta.is_finite() && beta >= 0.0 && l1 >= 0.0 && l1 <= 1.0 && l2 >= 0.0 && l2 <= 1.0
+    alpha.is_finite() && alpha > 0.0 && beta.is_finite() && beta >= 0.0 && beta.is_sign_positive() && l1 >= 0.0 && l1 <= 1.0 && l2 >= 0.0 && l2 <= 1.0
 }
 
 // FTRL-proximal closed form (McMahan et al. 2013, eq. for w_{t+1,i}; linked from the rustdoc of `Ftrl::params`):
 //   w = 0                                              if |z| <= l1
 //   w = -(z - sgn(z) l1) / ((beta + sqrt(n))/alpha + l2)   otherwise
 // `sqrt` is the uninterpreted ghost function, the oracle re-evaluates it (functionality axiom).
-// @unit class=complete tier=quick mem=light timeout=600 fns=linfa_ftrl::algorithm::apply_proximal_to_weights
+// @unit class=complete tier=quick mem=light timeout=300 fns=linfa_ftrl::algorithm::apply_proximal_to_weights
 #[kani::proof]
 #[kani::unwind(7)]
-#[kani::stub(f32::sqrt, ghost_sqrt32)]
+#[kani::stub(f32::sqrt, memo_sqrt32)]
 #[kani::stub(alloc::fmt::format, fmt_stub)]
 fn c15_ftrl_prox_closed_form() {
     let (z, n, alpha, beta, l1, l2): (f32, f32, f32, f32, f32, f32) =
         (kani::any(), kani::any(), kani::any(), kani::any(), kani::any(), kani::any());
-    kani::assume(z.is_finite() && !n.is_nan() && n >= 0.0 && hyper_ok(alpha, beta, l1, l2));
+    kani::assume(z.is_finite() && n >= 0.0 && n.is_sign_positive() && hyper_ok(alpha, beta, l1, l2));
     let w = apply_proximal_to_weights(z, n, alpha, beta, l1, l2);
     let absz = if z < 0.0 { -z } else { z };
     if absz <= l1 {
@@ -32,7 +34,7 @@ fn c15_ftrl_prox_closed_form() {
         assert!(w == 0.0);
     } else {
         let sgn: f32 = if z > 0.0 { 1.0 } else { -1.0 };
-        let expect = (sgn * l1 - z) / ((ghost_sqrt32(n) + beta) / alpha + l2);
+        let expect = (sgn * l1 - z) / ((memo_sqrt32(n) + beta) / alpha + l2);
         assert!(w == expect);
         // consequences that do not restate the body: the weight opposes z and is never NaN
         assert!(!w.is_nan());
@@ -45,16 +47,16 @@ fn c15_ftrl_prox_closed_form() {
 }
 
 // sigma_i = (sqrt(n_i + g_i^2) - sqrt(n_i)) / alpha  (per-coordinate learning-rate increment)
-// @unit class=complete tier=quick mem=light timeout=600 fns=linfa_ftrl::algorithm::calculate_weight_in_average
+// @unit class=complete tier=quick mem=light timeout=300 fns=linfa_ftrl::algorithm::calculate_weight_in_average
 #[kani::proof]
 #[kani::unwind(7)]
-#[kani::stub(f32::sqrt, ghost_sqrt32)]
+#[kani::stub(f32::sqrt, memo_sqrt32)]
 #[kani::stub(alloc::fmt::format, fmt_stub)]
 fn c15_ftrl_sigma_closed_form() {
     let (n, g, alpha): (f32, f32, f32) = (kani::any(), kani::any(), kani::any());
-    kani::assume(n.is_finite() && n >= 0.0 && g.is_finite() && alpha.is_finite() && alpha > 0.0);
+    kani::assume(n.is_finite() && n >= 0.0 && n.is_sign_positive() && g.is_finite() && alpha.is_finite() && alpha > 0.0);
     let s = calculate_weight_in_average(n, g, alpha);
-    let expect = (ghost_sqrt32(n + g * g) - ghost_sqrt32(n)) / alpha;
+    let expect = (memo_sqrt32(n + g * g) - memo_sqrt32(n)) / alpha;
     assert!(s == expect);
     // consequences: learning rates never increase (sigma >= 0), and a zero gradient changes nothing
     assert!(!s.is_nan() && s >= 0.0);
@@ -70,10 +72,10 @@ const SLACK: f32 = 4.76837158203125e-7; // 2^-21
 
 // stable_sigmoid: value in [0,1] for every non-NaN input, saturates outside [-35, 35],
 // monotone non-decreasing up to rounding (exp is only known to be monotone, see ghost axioms).
-// @unit class=complete tier=quick mem=light timeout=600 fns=linfa_ftrl::algorithm::stable_sigmoid,linfa_ftrl::algorithm::positive_sigmoid,linfa_ftrl::algorithm::negative_sigmoid
+// @unit class=complete tier=quick mem=light timeout=300 fns=linfa_ftrl::algorithm::stable_sigmoid,linfa_ftrl::algorithm::positive_sigmoid,linfa_ftrl::algorithm::negative_sigmoid
 #[kani::proof]
 #[kani::unwind(7)]
-#[kani::stub(f32::exp, ghost_exp32)]
+#[kani::stub(f32::exp, memo_exp32)]
 #[kani::stub(alloc::fmt::format, fmt_stub)]
 fn c15_ftrl_sigmoid_range_monotone() {
     let (x, y): (f32, f32) = (kani::any(), kani::any());
@@ -91,10 +93,10 @@ fn c15_ftrl_sigmoid_range_monotone() {
     kani::cover!(x == f32::NEG_INFINITY && y == f32::INFINITY);
 }
 
-// @unit class=complete tier=quick mem=light timeout=600 fns=linfa_ftrl::algorithm::stable_sigmoid
+// @unit class=complete tier=quick mem=light timeout=300 fns=linfa_ftrl::algorithm::stable_sigmoid
 #[kani::proof]
 #[kani::unwind(7)]
-#[kani::stub(f32::exp, ghost_exp32)]
+#[kani::stub(f32::exp, memo_exp32)]
 #[kani::stub(alloc::fmt::format, fmt_stub)]
 fn c15_ftrl_sigmoid_clamps() {
     let x: f32 = kani::any();
@@ -118,7 +120,7 @@ fn c15_ftrl_sigmoid_clamps() {
 fn sqrt_arbitrary(_x: f32) -> f32 {
     kani::any()
 }
-// @unit class=complete tier=quick mem=light timeout=600 fns=linfa_ftrl::algorithm::apply_proximal_to_weights
+// @unit class=complete tier=quick mem=light timeout=300 fns=linfa_ftrl::algorithm::apply_proximal_to_weights
 #[kani::proof_for_contract(apply_proximal_to_weights)]
 #[kani::stub(f32::sqrt, sqrt_arbitrary)]
 #[kani::stub(alloc::fmt::format, fmt_stub)]
